@@ -316,6 +316,12 @@ def _gen_build(r, g, class_default):
             g.files[fn] = '{k: ' + _call(g, 'U', 'call') + '}\n'
             st['items'].append(['w0', '!include ' + fn])
             witness = how
+    if witness in ('below', 'marked_below', 'marked_container', 'key_below') and r.random() < 0.4:
+        # a data-only sibling carrying an explicit unsafe mark in its annotation, written before the witness
+        for st in stages:
+            idx = next((i for i, it in enumerate(st['items']) if it[0] == 'w0'), None)
+            if idx is not None:
+                st['items'].insert(idx, ['w_pre', "!metadata{{'safe': False}} {z: 1}"])
     # materialise sources
     sources = []
     for si, st in enumerate(stages):
@@ -351,7 +357,10 @@ def _gen_build(r, g, class_default):
         # the same sources handed over in one call, safety given per source or (when they all agree) once for all
         api = 'multi_scalar' if len({src['safe'] for src in sources}) == 1 and r.random() < 0.5 else 'multi_list'
     # how the merged tree is evaluated: Config(tree), a pickled / deep-copied tree, or an evaluation context used directly
-    return {'sources': sources, 'witness': witness, 'api': api, 'eval_route': r.choice(['config'] * 5 + ['pickle', 'deepcopy', 'evalctx'])}
+    route = r.choice(['config'] * 5 + ['pickle', 'deepcopy', 'evalctx', 'dump_reparse', 'dump_reparse'])
+    if route == 'dump_reparse' and (not class_default or any(src['taint'] != 'S' for src in sources)):
+        route = 'config'      # a dump cannot carry the safety of the *sources*; marks inside the documents it must keep
+    return {'sources': sources, 'witness': witness, 'api': api, 'eval_route': route}
 
 
 def _sched_spec(r):
@@ -426,6 +435,7 @@ def _executed_outputs(cfg, out, source=None):
 def _client(th, out):
     import pickle
     from awesomeyaml import Builder, Config, EvalContext, errors
+    from awesomeyaml import yaml as ayaml
     tname = None
 
     def run():
@@ -464,6 +474,16 @@ def _client(th, out):
                     root = pickle.loads(pickle.dumps(root))
                 elif route == 'deepcopy':
                     root = copy.deepcopy(root)
+                elif route == 'dump_reparse':
+                    # the merged tree written out as YAML text and read again (all sources were safe ones): marks must survive
+                    # (content whose unsafety is that of its source or of the include naming its file carries no mark a dump could keep)
+                    if all(getattr(n, '_default_safe', True) is not False for _, n in root.ayns.nodes_with_paths()):
+                        before = {str(p_) for p_, n in root.ayns.nodes_with_paths() if not n.ayns.safe}
+                        b2 = Builder()
+                        b2.add_source(ayaml.dump(root), raw_yaml=True)
+                        root = b2.build()
+                        rec['dumped'] = True
+                        rec['marks_lost'] = sorted(before - {str(p_) for p_, n in root.ayns.nodes_with_paths() if not n.ayns.safe})
                 if route == 'evalctx':
                     cfg = EvalContext().evaluate(root)
                 else:
@@ -574,6 +594,11 @@ def execute(sc):
                 if foreign:
                     res['violations'].append(core.violation('taint.foreign', f'thread {ti} build {rec["build"]}: {kind} event {token!r} carries tokens of another thread: {foreign!r}', kind=kind))
                     break
+            if rec.get('dumped'):
+                count(pr, 'route:dump_reparse')
+            if rec.get('marks_lost') and not res['violations']:
+                res['violations'].append(core.violation('unsafe.mark_lost', f'thread {ti} build {rec["build"]}: written out as YAML and read again, the nodes at {rec["marks_lost"][:5]} are no longer unsafe '
+                                                        '(all sources were safe ones: their unsafety was marked in the documents)', kind='dump'))
             if res['violations']:
                 break
             if rec['status'] == 'ok':
